@@ -313,6 +313,34 @@ func nestedCaseRun(c *fw.Ctx) {
 			c.ModelCmp("decode-nested", rq, rp, stripAlloc)
 		}
 	}
+	// the same field with its length written as a padded (non-minimal) varint, as writers that back-patch
+	// fixed-width length prefixes emit: still exactly the declared bytes, cursor on the next field
+	if dout == "ok" {
+		extra := 1 + r.Intn(3)
+		lenb := protowire.AppendVarint(nil, uint64(len(nc.body)))
+		lenb[len(lenb)-1] |= 0x80
+		for j := 1; j < extra; j++ {
+			lenb = append(lenb, 0x80)
+		}
+		lenb = append(lenb, 0x00)
+		in2 := append([]byte{}, in[:nestedStart]...)
+		in2 = protowire.AppendTag(in2, protowire.Number(tag), protowire.BytesType)
+		in2 = append(in2, lenb...)
+		in2 = append(in2, nc.body...)
+		end2 := len(in2)
+		in2 = append(in2, in[nestedEnd:]...)
+		ops3 := []decOp{{name: "seek", a: int64(nestedStart), b: 0}, {name: "tag"}, {name: "nested", a: 1}, {name: "offset"}}
+		if end2 < len(in2) {
+			ops3 = append(ops3, decOp{name: "tag"})
+		}
+		rq, rp, res3, offs3 := runDecProgram(fast, in2, ops3)
+		c.ModelCmp("decode-nested", rq, rp, stripAlloc)
+		if !res3[2].ok || res3[2].item != "x"+hexs(nc.body) || offs3[2] != end2 {
+			dout = "padded-length-mismatch"
+			c.Violate(fw.Violation{Stream: "decode-nested", Signature: "decode/padded-length/" + nc.flavour, What: "DecodeNested of a field whose length prefix is a padded varint did not hand over exactly the declared bytes / did not leave the cursor on the next field",
+				Input: hexs(in2), Expected: fmt.Sprintf("x%s then offset %d", hexs(nc.body), end2), Got: fmt.Sprintf("%s then offset %d", res3[2].reply, offs3[2])})
+		}
+	}
 	// real message types: decode into a fresh message and compare
 	if nc.fresh != nil && dout == "ok" {
 		d := csproto.NewDecoder(in)
@@ -363,7 +391,7 @@ func runC19(c *fw.Ctx) int {
 		c.LeanChecker("C19")
 	}
 	return c.Finish(
-		"encode-nested: EncodeNested of nested messages of ten flavours (doubles: MarshalerTo / Marshaler+Size / Marshal-only / failing / wrong Size; real: google v2 well-known types incl. the empty message, gogo plain Timestamp, golang v1 plain (prometheus LabelPair), google v2 fast-marshal EmbeddedEvent) placed first/middle/last among scalar fields in an exact or slightly larger buffer; decode-nested: the written field read back with a failing and a succeeding nested unmarshaler, with the buffer truncated inside the payload, and into a fresh message of the real type; non-trivial = distinct case with a non-empty nested body",
+		"encode-nested: EncodeNested of nested messages of ten flavours (doubles: MarshalerTo / Marshaler+Size / Marshal-only / failing / wrong Size; real: google v2 well-known types incl. the empty message, gogo plain Timestamp, golang v1 plain (prometheus LabelPair), google v2 fast-marshal EmbeddedEvent) placed first/middle/last among scalar fields in an exact or slightly larger buffer; decode-nested: the written field read back with a failing and a succeeding nested unmarshaler, with the buffer truncated inside the payload, with the length prefix re-written as a padded varint, and into a fresh message of the real type; non-trivial = distinct case with a non-empty nested body",
 		append(trustedCommon, "the three protobuf runtimes' own Marshal/Unmarshal (used through csproto.Marshal to obtain the expected nested bytes)"),
 		[]string{"MarshalerTo path: exactness assumes the nested message's own contract Size(m) = len(MarshalTo output) (C04 for generated code); a double violating it is compared with the model only",
 			"classification of a message into the three paths is done by the harness with the same interface assertions (bridged to the regenerated arm order of EncodeNested)"})
